@@ -10,7 +10,7 @@ SHARD = 500
 RULE = ("triples (a,b,c) of segments in ticks under regimes K0 (eps=0), K4 (eps=4 ticks of 2^-22 s, default "
         "1e-6 precision) and K1 (set_precision(0), eps=1): all pairs over a 6-point grid exhaustively (empty and "
         "inverted segments included) with c cycling over the grid, plus random wide-range triples whose bounds "
-        "are tied to each other by offsets around eps; non-trivial = a and b both non-empty and not equal")
+        "are tied to each other by offsets around eps; overlaps(t) also at the quarter ticks around both bounds of a; non-trivial = a and b both non-empty and not equal")
 ASSUMPTIONS = ["float arithmetic on the three grids is exact (DESIGN 2.1); arbitrary reals are represented by their order type"]
 
 GRID = {"K0": [0, 1, 2, 3, 4, 5], "K4": [0, 4, 5, 9, 10, 15], "K1": [0, 1, 2, 3, 4, 5]}
@@ -58,6 +58,13 @@ def generate(rng, tier):
     return {"cases": cases, "meta": meta}
 
 
+def _quarters(case):
+    a = case["a"]
+    if max(abs(a[0]), abs(a[1])) >= 1 << 48:
+        return []
+    return sorted({4 * p + d for p in a for d in (-3, -2, -1, 1, 2, 3)})
+
+
 def run(case):
     from pyannote.core import Segment
     tb = TB(case["regime"])
@@ -79,6 +86,8 @@ def run(case):
             "inter": bool(a.intersects(b)), "inter_ba": bool(b.intersects(a)), "in": bool(a in b), "eq": bool(a == b2) and bool(a == b) == bool(a == b2),
             "lt": bool(a < b), "hasheq": hash(a) == hash(b2) and (hash(a) == hash(b)) == (hash(a) == hash(b2)),
             "ov1": bool(a.overlaps(b.start)), "ov2": bool(a.overlaps(b.end)),
+            # time points off the grid (quarter ticks): under set_precision a probe Segment(t, t) would be rounded
+            "ovq": [[q, bool(a.overlaps(q / (4 * tb.scale)))] for q in _quarters(case)],
             "and_l": tb.us((a & b) & c), "and_r": tb.us(a & (b & c)),
             "or_l": tb.us((a | b) | c), "or_r": tb.us(a | (b | c)),
             "sorted": [tb.us(s) for s in sorted([a, b, c])],
@@ -95,7 +104,7 @@ def encode(case, o):
         e.b(o["bool"]), e.z(o["dur"]), e.z(o["mid2"]),
         e.seg(o["and"]), e.seg(o["or"]), e.opt(o["xor"], e.seg),
         e.b(o["inter"]), e.b(o["inter_ba"]), e.b(o["in"]), e.b(o["eq"]), e.b(o["lt"]), e.b(o["hasheq"]),
-        e.b(o["ov1"]), e.b(o["ov2"]),
+        e.b(o["ov1"]), e.b(o["ov2"]), e.lst([e.pair(e.z(q), e.b(v)) for q, v in o.get("ovq", [])]),
         e.seg(o["and_l"]), e.seg(o["and_r"]), e.seg(o["or_l"]), e.seg(o["or_r"]),
         e.segs(o["sorted"])])
 
